@@ -817,6 +817,64 @@ def check_factor_sign(rep: Report, prog: Program, rid: str = "R05.11") -> None:
         rep.rules[rid].floor = min(rep.rules[rid].floor, n)
 
 
+def check_table_walkers(rep: Report, prog: Program, rid: str = "R05.13") -> None:
+    """`_ratios[U][V]` is the number a magnitude *expressed in U* is multiplied by to be expressed in V.  Code outside the planner
+    that walks the table on its own (the command line's listing of equivalents) has to multiply the magnitude of the very quantity
+    whose unit indexes the table - the starting quantity's magnitude times the ratio of a unit two hops away is not a conversion
+    (1 ft listed as 6 pica)."""
+    n = 0
+    for q, fi in sorted(prog.functions.items()):
+        if fi.module in ("hypothesis", "pytest"):
+            continue
+        defs: Dict[str, List[ast.AST]] = {}
+        for st in ast.walk(fi.node):
+            if isinstance(st, ast.Assign) and len(st.targets) == 1 and isinstance(st.targets[0], ast.Name):
+                defs.setdefault(st.targets[0].id, []).append(st.value)
+
+        def owner_of_unit(e: ast.AST) -> Optional[str]:
+            """the quantity variable Q when e is `Q.unit` (possibly through one single-definition local)"""
+            if isinstance(e, ast.Name) and len(defs.get(e.id, [])) == 1:
+                e = defs[e.id][0]
+            if isinstance(e, ast.Attribute) and e.attr == "unit" and isinstance(e.value, ast.Name):
+                return e.value.id
+            return None
+
+        def owner_of_magnitude(e: ast.AST) -> Optional[str]:
+            if isinstance(e, ast.Name) and len(defs.get(e.id, [])) == 1:
+                e = defs[e.id][0]
+            if isinstance(e, ast.Attribute) and e.attr == "magnitude" and isinstance(e.value, ast.Name):
+                return e.value.id
+            return None
+        for loop in ast.walk(fi.node):
+            if not (isinstance(loop, ast.For) and isinstance(loop.iter, ast.Call) and isinstance(loop.iter.func, ast.Attribute) and loop.iter.func.attr == "items"
+                    and isinstance(loop.iter.func.value, ast.Subscript) and ast.unparse(loop.iter.func.value.value).endswith("_ratios")
+                    and isinstance(loop.target, ast.Tuple) and len(loop.target.elts) == 2 and isinstance(loop.target.elts[1], ast.Name)):
+                continue
+            ratio = loop.target.elts[1].id
+            holder = owner_of_unit(loop.iter.func.value.slice)
+            for c in ast.walk(loop):
+                ops: List[ast.AST] = []
+                if isinstance(c, ast.Call) and ast.unparse(c.func) in ("_mul", "_div") and len(c.args) == 2:
+                    ops = list(c.args)
+                elif isinstance(c, ast.BinOp) and isinstance(c.op, (ast.Mult, ast.Div)):
+                    ops = [c.left, c.right]
+                if not ops or not any(isinstance(o, ast.Name) and o.id == ratio for o in ops):
+                    continue
+                other = next(o for o in ops if not (isinstance(o, ast.Name) and o.id == ratio))
+                mo = owner_of_magnitude(other)
+                if mo is None:
+                    continue       # not a magnitude of a quantity variable (a hop being built, a product of ratios)
+                n += 1
+                if holder is None:
+                    rep.defer(AnalysisError(f"{q}: cannot tell which quantity's unit indexes `{ast.unparse(loop.iter.func.value)[:40]}`"))
+                    continue
+                rep.check(rid, f"{q}:{ast.unparse(c)[:40]}", mo == holder,
+                          f"{q} walks `{ast.unparse(loop.iter.func.value)[:40]}` - the ratios for a magnitude expressed in `{holder}.unit` - but multiplies "
+                          f"`{ast.unparse(other)}` by them: the magnitude of another quantity (1 ft is listed as 6 pica)", fi.where(c))
+    if n == 0:
+        rep.ok(rid, "package", note="no function outside the planner applies table ratios to a magnitude")
+
+
 def check_inline_paths(rep: Report, prog: Program, rid: str = "R05.10") -> None:
     """_inline_paths turns rough steps (ratio, start, end, exponent) into plan steps (ratio, path, exponent).
     convert applies a step's ratio before its hops (and their offsets), so the plan means what the rough plan
@@ -1026,6 +1084,8 @@ def run(rep: Report) -> None:
              "start -> end, direct hit and base case return single hops", floor=5)
     rep.rule("R05.6", "every hop returned by the path search after the dimension reduction is lifted by ** exponent, including "
              "the hops of a recursively found sub-path", floor=2)
+    rep.rule("R05.13", "a function that walks the ratio table on its own multiplies the magnitude of the quantity whose unit indexes the table", floor=1)
+    check_table_walkers(rep, prog, "R05.13")
     rep.rule("R05.12", "no two base units of an inverse fundamental dimension (T^-1, ...) are linked by declared equivalences (the planner's sign rule would invert "
              "their ratio inside compound units)", floor=1)
     rep.rule("R05.5", "declared ratios are positive; scale units (non-zero offsets) are leaves of the declared graph", floor=200)
